@@ -93,7 +93,7 @@ class FortranRegularExpressions:
         r"[ ]*,[ ]*(PUBLIC|PRIVATE|ALLOCATABLE|"
         r"POINTER|TARGET|DIMENSION[ ]*\(|"
         r"OPTIONAL|INTENT[ ]*\([ ]*(?:IN|OUT|IN[ ]*OUT)[ ]*\)|DEFERRED|NOPASS|"
-        r"PASS[ ]*\(\w*\)|SAVE|PARAMETER|EXTERNAL|"
+        r"PASS[ ]*\([ ]*\w*[ ]*\)|SAVE|PARAMETER|EXTERNAL|"
         r"CONTIGUOUS)",
         I,
     )
